@@ -183,6 +183,7 @@ fn op() -> impl Strategy<Value = Op> {
                 new_title,
                 new_ts,
                 new_tags: vec![],
+                allow_busy: false,
             })),
         1 => Just(Op::Vacuum),
         3 => Just(Op::Commit),
